@@ -279,3 +279,10 @@ def run(chk):
     from . import forwarding as _fw
     nd_ = _fw.dead_params(chk, c, 'C09-A', lambda fi: fi.module.name == 'core')
     chk.floor('parameters examined (C09-A)', nd_, 150)
+
+    chk.rule('C09-D', 'decision structure of the functions this property is anchored in: every effect statement (store, call, return, '
+                   'raise) runs under the same combinations of the function\'s elementary tests as in the reviewed tree, and none '
+                   'was deleted (reference/decisions.json; compared by meaning, rewritten functions are not compared)')
+    from . import guardrules as _gr
+    nd2_ = _gr.check_decisions(chk, c, 'C09-D', lambda fq_: fq_.startswith(('core.ElementList.', 'core.ElementProxy.')))
+    chk.floor('functions compared with the decision reference (C09-D)', nd2_, 1)
